@@ -418,7 +418,20 @@ def match_subject_total(m: Model, r: Report, rid: str, fn: FuncInfo) -> None:
                 f"the match subject converts the wire value with {partial}: values outside the enum raise ValueError before the catch-all arm, "
                 "the reader task dies and the connection is closed instead of the frame being skipped / reported", loc=f"{fn.module.relpath}:{mt.lineno}")
     if n_m < 1:
-        raise AnalysisError(f"{fn.qualname}: no dispatch (match / if-chain) with a catch-all arm")
+        # a dispatch through a module-level table: `TABLE.get(<wire value>)` is total (None for unknown values); `TABLE[<wire value>]` needs a KeyError handler
+        for c in [n for n in ast.walk(fn.node) if isinstance(n, ast.Call) and isinstance(n.func, ast.Attribute) and n.func.attr == "get" and isinstance(n.func.value, ast.Name)
+                  and isinstance(fn.module.assigns.get(n.func.value.id), ast.Dict) and n.args]:
+            n_m += 1
+            partial = []
+            for k in ast.walk(c.args[0]):
+                if isinstance(k, ast.Call):
+                    t = m.resolve_expr(fn.module, k.func, fn.cls)
+                    if isinstance(t, ClassInfo) and m.enum_members(t) is not None and not any("_missing_" in kk.methods for kk in m.mro(t)):
+                        partial.append(ast.unparse(k))
+            r.check(not partial, rid, f"{fn.qualname}#dispatch-total",
+                    f"the table key converts the wire value with {partial}: values outside the enum raise ValueError before the lookup, the reader task dies", loc=f"{fn.module.relpath}:{c.lineno}")
+    if n_m < 1:
+        raise AnalysisError(f"{fn.qualname}: no dispatch (match / if-chain / table lookup) with a catch-all arm")
 
 
 def callee_param_names(m: Model, caller: FuncInfo, call: ast.Call) -> list[str]:
